@@ -62,8 +62,6 @@ def req_cases(tier: str, rng: random.Random) -> List[Dict[str, Any]]:
         for number in (1, 2, 3):
             for tu, mt in times:
                 for node, sock in ((1, 0), (2, 3)):
-                    if api == "create_context" and (tu, mt) != (0, 0):
-                        continue
                     add(api, "K", number=number, time_unit=tu, max_time=mt, remote_node=node, socket=sock)
     # measure directly: named bases, rotation triples, random basis sets
     for api in ("create_measure", "create(M)"):
@@ -186,7 +184,7 @@ def _run_req(item):
                 for q in sock.create(n, tp=EPRType.K, **tkw):
                     q.measure()
             elif api == "create_context":
-                with sock.create_context(n) as (q, pair):
+                with sock.create_context(n, **tkw) as (q, pair):
                     q.measure()
             elif api == "create_measure":
                 sock.create_measure(n, **tkw, **mkw, **rkw)
@@ -233,6 +231,12 @@ def res_cases(tier: str, rng: random.Random) -> List[Dict[str, Any]]:
             for rep in range(reps):
                 out.append(dict(kind="res", reqs=[dict(api=api, role=role, kind=kind, n=n, node=1 + rep % 2, socket=(0, 3)[rep % 2])],
                                 salt=rng.randrange(1 << 20), expect=bool(rep % 2)))
+    # kept qubits consumed (measured destructively / freed) before the flush, handles read afterwards
+    for api, role, kind in RES_APIS:
+        if kind == "K" and "_seq" not in api:
+            for n, consume in ((1, "measure"), (2, "mixed"), (3, "free")) if tier != "quick" else ((2, "mixed"),):
+                out.append(dict(kind="res", reqs=[dict(api=api, role=role, kind=kind, n=n, node=1, socket=0)],
+                                salt=rng.randrange(1 << 20), expect=False, consume=consume))
     # the same, with the responses handed to the executor as qlink-interface 1.0 objects (the conversion path)
     for api, role, kind in RES_APIS:
         for n in (1, 2, 3) if tier != "quick" else (2,):
@@ -272,6 +276,8 @@ def _run_res(item):
                         measurement_basis=(k + salt) % 5, logical_qubit_id=physs[k])
 
         seqmode = any("_seq" in r["api"] for r in c["reqs"])
+        if c.get("consume"):
+            ex.meas_script = [0, 1] * 8
         if seqmode:
             physs = [physs[0]] * total            # one pair at a time on the same qubit
             ex.meas_script = [0, 1] * 8
@@ -323,6 +329,15 @@ def _run_res(item):
             elif api == "recv_rsp_with_info":
                 qs, infos = sock.recv_rsp_with_info(n, **ek)
                 h = ("q", qs, infos)
+            if c.get("consume") and h[0] == "q":
+                # the usual order: the kept qubits are measured (or freed) in the same subroutine, the handles are
+                # inspected after the flush: they outlive their qubits and still name their own pair's response
+                for k_, q_ in enumerate(h[1]):
+                    if c["consume"] == "free" or (c["consume"] == "mixed" and k_ % 2):
+                        q_.free()
+                    else:
+                        q_.measure()
+                h = ("e", h[1], h[2])
             handles.append(h)
         # the recv-role streams are offered from the start, in either order: responses of the later
         # request may arrive (and have to be parked) before those the subroutine is waiting for
@@ -431,7 +446,7 @@ def run(prop: str, tier: str) -> int:
 
 
 def replay_case(prop, case, tmp):
-    keep = ("kind", "ps", "reqs", "salt", "expect", "reverse", "q10")
+    keep = ("kind", "ps", "reqs", "salt", "expect", "reverse", "q10", "consume")
     row = _dispatch((1, {k: case[k] for k in keep if k in case}))
     res = C.run_tlc_sharded("EprFields", [row], tmp, shards=1, cfg="EprFields.cfg")
     return res.verdicts[0][1] if res.verdicts else None
